@@ -1292,7 +1292,19 @@ func FromV3Response(ref *openapi3.ResponseRef, components *openapi3.Components) 
 		Extensions:  stripNonExtensions(response.Extensions),
 	}
 	if content := response.Content; content != nil {
-		if ct := content["application/json"]; ct != nil {
+		ct := content["application/json"]
+		if ct == nil {
+			// no JSON media type: an OpenAPI 2 response has one schema, take the one of the first media type
+			mimes := make([]string, 0, len(content))
+			for mime := range content {
+				mimes = append(mimes, mime)
+			}
+			sort.Strings(mimes)
+			if len(mimes) != 0 {
+				ct = content[mimes[0]]
+			}
+		}
+		if ct != nil {
 			result.Schema, _ = FromV3SchemaRef(ct.Schema, components)
 		}
 	}
